@@ -3,16 +3,22 @@ import TwistedModel.Inline.Driver
 /-!
 Driver glue for C05.
 
-  `C05 run  <prog> <specs> <pre> <post>`   → the asynchronous run (Inline/Driver.lean)
+  `C05 run <kind> <prog> <specs> <pre> <post>` → the asynchronous run (Inline/Driver.lean); `kind` = `g` the top
+                                             function is an @inlineCallbacks generator · `c` a coroutine
   `C05 sync <prog> <outcomes>`             → the synchronous run (Inline/Sync.lean)
 
 `prog`   : prefix notation, tokens joined by `,`:
            `k` skip · `a` await · `y<E>` yield plain · `s<E>` set · `m<n>` mark · `q` seq(2) · `xa|xu|xc` tryExcept(2)
-           · `f` tryFinally(2) · `l<k>` loop(1) · `r<E>` return · `e<n>` raise · `i<n>` ifLt(2) · `cw|cd` call(1)
+           · `xb` tryExcept BaseException(2) · `f` tryFinally(2) · `l<k>` loop(1) · `r<E>` return · `e<n>` raise UserError
+           · `eb<n>` raise UserBase · `i<n>` ifLt(2) · `cwg|cwc` call through a Deferred of a generator|coroutine(1)
+           · `cd` direct delegation(1)
            `E` = `L<n>` | `A` | `P<n>`
-`specs`  : cancellers of Deferreds 0,1,…  `n` none · `z` noop · `o<v>` fires callback(v) · `e<n>` fires errback(UserError(n)); `-` = none listed
-`pre`,`post` : events `f<i>:<O>` fire · `x` cancel (not allowed in `pre`), joined by `,`; `-` = empty
-`outcomes`: `<O>` or `_` (never) for Deferreds 0,1,…; `-` = empty.    `O` = `v<n>` | `u<n>` | `c`
+`specs`  : cancellers of Deferreds 0,1,…  `n` none · `z` noop · `o<v>` fires callback(v) · `e<C><X>` fires the failure `X`
+           given as `C`; `-` = none listed
+`pre`,`post` : events `f<i>:v<n>` fire with a value · `f<i>:<X>:<C>` fire with failure `X` given as `C` · `x` cancel (not
+           allowed in `pre`), joined by `,`; `-` = empty
+`outcomes`: `<O>` or `_` (never) for Deferreds 0,1,…; `-` = empty.    `O` = `v<n>` | `X`;  `X` = `u<n>` | `b<n>` | `c`
+           `C` = `p` errback(Failure) · `s` errback(instance of a Failure subclass) · `r` errback(bare exception) · `k` callback(Failure)
 
 Output of `run`:  `<timeline> final=<O;…> cancels=<n,…> next=<n>` — timeline tokens joined by `,`:
 `a:<O>` await outcome · `p:<n>` plain yield got · `m:<n>` mark · `c:<O>` nested call outcome · `S` start · `F<i>` fire ·
@@ -36,6 +42,19 @@ def decOutcome (s : String) : Option Outcome :=
   if s = "c" then some (.exc .cancelled)
   else if s.startsWith "v" then (nat? (rest s 1)).map .val
   else if s.startsWith "u" then (nat? (rest s 1)).map fun n => .exc (.user n)
+  else if s.startsWith "b" then (nat? (rest s 1)).map fun n => .exc (.base n)
+  else none
+
+def decExc (s : String) : Option Exc :=
+  match decOutcome s with
+  | some (.exc e) => some e
+  | _ => none
+
+def decFCls (s : String) : Option FCls :=
+  if s = "p" then some .plain
+  else if s = "s" then some .sub
+  else if s = "r" then some .raw
+  else if s = "k" then some .viaCallback
   else none
 
 def parseStmt : Nat → List String → Option (Stmt × List String)
@@ -59,13 +78,16 @@ def parseStmt : Nat → List String → Option (Stmt × List String)
     else if t = "xa" then two (fun b h => .tryExcept b .all h)
     else if t = "xu" then two (fun b h => .tryExcept b .user h)
     else if t = "xc" then two (fun b h => .tryExcept b .canc h)
+    else if t = "xb" then two (fun b h => .tryExcept b .base h)
     else if t = "f" then two .tryFinally
-    else if t = "cw" then one (.call true)
-    else if t = "cd" then one (.call false)
+    else if t = "cwg" then one (.call true false)
+    else if t = "cwc" then one (.call true true)
+    else if t = "cd" then one (.call false false)
     else if t.startsWith "y" then (decExpr (rest t 1)).map fun e => (.yieldv e, ts)
     else if t.startsWith "s" then (decExpr (rest t 1)).map fun e => (.set e, ts)
     else if t.startsWith "r" then (decExpr (rest t 1)).map fun e => (.ret e, ts)
     else if t.startsWith "m" then (nat? (rest t 1)).map fun n => (.mark n, ts)
+    else if t.startsWith "eb" then (nat? (rest t 2)).map fun n => (.raiseB n, ts)
     else if t.startsWith "e" then (nat? (rest t 1)).map fun n => (.raise n, ts)
     else if t.startsWith "l" then
       match nat? (rest t 1) with
@@ -90,7 +112,10 @@ def decCanc (s : String) : Option Canc :=
   if s = "n" then some .none
   else if s = "z" then some .noop
   else if s.startsWith "o" then (nat? (rest s 1)).map .firesOk
-  else if s.startsWith "e" then (nat? (rest s 1)).map .firesErr
+  else if s.startsWith "e" then
+    match decFCls ((rest s 1).take 1).toString, decExc (rest s 2) with
+    | some c, some e => some (.firesErr c e)
+    | _, _ => none
   else none
 
 def decEvent (allowCancel : Bool) (s : String) : Option Event :=
@@ -99,14 +124,19 @@ def decEvent (allowCancel : Bool) (s : String) : Option Event :=
     match (rest s 1).splitOn ":" with
     | [i, o] =>
       match nat? i, decOutcome o with
-      | some i, some o => some (.fire i o)
+      | some i, some (.val v) => some (.fire i (.ok v))
       | _, _ => none
+    | [i, x, c] =>
+      match nat? i, decExc x, decFCls c with
+      | some i, some e, some c => some (.fire i (.fail c e))
+      | _, _, _ => none
     | _ => none
   else none
 
 def showOutcome : Outcome → String
   | .val v => s!"v{v}"
   | .exc (.user n) => s!"u{n}"
+  | .exc (.base n) => s!"b{n}"
   | .exc .cancelled => "c"
 
 def showEntry : Entry → String
@@ -133,12 +163,15 @@ def showRun (n : Nat) (s : State) : String :=
 def decOutcomeOpt (s : String) : Option (Option Outcome) :=
   if s = "_" then some none else (decOutcome s).map some
 
+def decKind (s : String) : Option Bool :=
+  if s = "g" then some false else if s = "c" then some true else none
+
 def handle (args : List String) : String :=
   match args with
-  | ["run", p, specs, pre, post] =>
-    match decProg p, decList decCanc specs, decList (decEvent false) pre, decList (decEvent true) post with
-    | some p, some specs, some pre, some post => showRun specs.length (run p specs pre post)
-    | _, _, _, _ => "bad-op"
+  | ["run", kind, p, specs, pre, post] =>
+    match decKind kind, decProg p, decList decCanc specs, decList (decEvent false) pre, decList (decEvent true) post with
+    | some coro, some p, some specs, some pre, some post => showRun specs.length (run coro p specs pre post)
+    | _, _, _, _, _ => "bad-op"
   | ["sync", p, outs] =>
     match decProg p, decList decOutcomeOpt outs with
     | some p, some outs =>
